@@ -191,6 +191,22 @@ func relayout(t *rapid.T, toks []lexref.Tok) (string, []string) {
 	// the original's last token decides whether a final newline token exists; optionally drop/add trailing text
 	if len(toks) > 0 && toks[len(toks)-1].Type != lexer.NEWLINE {
 		kinds["no-final-newline"] = true
+		// the file ends without a line break: trailing blanks, a line comment or a block comment may still follow the last token
+		switch gen.Uniform(0, 5).Draw(t, "after-last-token") {
+		case 0:
+			sb.WriteString([]string{" ", "\t", "  \t"}[gen.Uniform(0, 2).Draw(t, "eof-ws")])
+			kinds["blanks-at-end-of-file"] = true
+		case 1:
+			sb.WriteString([]string{" // done", "// x", "\t//", " // a b c"}[gen.Uniform(0, 3).Draw(t, "eof-comment")])
+			kinds["line-comment-at-end-of-file"] = true
+		case 2:
+			sb.WriteString([]string{" /* done */", "/**/", " /* a\nb */"}[gen.Uniform(0, 2).Draw(t, "eof-block")])
+			kinds["block-comment-at-end-of-file"] = true
+		}
+	} else if len(toks) > 0 && gen.Uniform(0, 5).Draw(t, "comment-only-last-line") == 0 {
+		// a comment-only last line that is not terminated by a line break
+		sb.WriteString([]string{"// end of file", "\t// e", "/* end */", "//"}[gen.Uniform(0, 3).Draw(t, "last-line-comment")])
+		kinds["unterminated-comment-line-at-end-of-file"] = true
 	}
 	ks := []string{}
 	for k := range kinds {
@@ -255,7 +271,7 @@ var c12MultilineBases = []string{
 
 func TestC12(t *testing.T) {
 	r, e := start(t, "C12",
-		"base programs: generated accepted programs (scalars, functions, slices, strings, switch, every loop form, input/read/write/exists and program calls, error/nil spellings), the repository suite's sources, programs with single and grouped imports, programs whose string literals span several lines, and rejected programs (token-edited or type-corrupted); each held as a token stream and re-rendered with random layout: zero/one/many blanks or tabs between tokens (zero only where the token grammar keeps them apart; a-1 is a legal re-layout of a - 1), inline block comments, trailing blanks, // comments before line breaks, LF/CRLF/mixed, 0-3 blank or comment-only lines at any existing line break (after '{', after 'case x:', inside import groups, at the start), any indentation, final newline as in the original; plus the whole file saved with CRLF (line breaks inside multi-line string literals included). Oracle: same accept/reject for both targets and byte-identical scripts. Non-trivial = at least 3 layout edits of at least 2 kinds; distinct by re-laid-out text.",
+		"base programs: generated accepted programs (scalars, functions, slices, strings, switch, every loop form, input/read/write/exists and program calls, error/nil spellings), the repository suite's sources, programs with single and grouped imports, programs whose string literals span several lines, and rejected programs (token-edited or type-corrupted); each held as a token stream and re-rendered with random layout: zero/one/many blanks or tabs between tokens (zero only where the token grammar keeps them apart; a-1 is a legal re-layout of a - 1), inline block comments, trailing blanks, // comments before line breaks, LF/CRLF/mixed, 0-3 blank or comment-only lines at any existing line break (after '{', after 'case x:', inside import groups, at the start), any indentation, final newline dropped or added, blanks / a line comment / a block comment after the last token of a file without final line break, a comment-only last line without line break; plus the whole file saved with CRLF (line breaks inside multi-line string literals included). Oracle: same accept/reject for both targets and byte-identical scripts. Non-trivial = at least 3 layout edits of at least 2 kinds; distinct by re-laid-out text.",
 		[]string{"line breaks are only added next to existing line breaks (newlines are tokens of this grammar)", "multi-line block comments are only used as comment-only lines", "error texts are not compared (they carry positions)"})
 	defer r.Flush()
 	c13CorpusOnce.Do(loadC13Corpus)
